@@ -108,3 +108,9 @@ claim("C19",
   "Decides structural necessary conditions of C19 for every crash point: each persisted allocation annotation is written and read with one key and one type that survives JSON encoding; what pre-bind persists is read on the same plugin's informer path; the rebuilt allocation record sets every field the allocating path sets and reads every persisted field; a persisted allocation is dropped only when completely empty; owners (reservations, quotas) are replayed before pods and a pod's reservation assignment is always replayed into the ledger. It does not decide equality of the live and rebuilt caches over histories.",
   "trusts go/types, encoding/json semantics for the accepted type shapes, and the allow-list of custom marshalers (Quantity, Time, ...); node-level annotations are outside the property",
   "DESIGN.md §4 C19")
+
+claim("C20",
+  "custom SSA rules: sibling rule over the five section merge functions (keep-old-on-error and default-when-absent explorations, MergeCfg base/overlay provenance, must-store per node entry), unconditional-store rule in syncConfig, write-set rule on the config cache, first-match exploration of the selectors, struct-field table of the NodeSLO spec",
+  "Decides structural necessary conditions of C20 for every ConfigMap sequence: each section merge returns the previously effective section on a parse error and the defaults when absent, merges base-then-overlay in the layered order, and gives every node entry a merged strategy (own overlay or cluster copy); syncConfig stores every result unconditionally and only updateCacheIfChanged writes the cache; the selectors return the first matching node entry and the cluster value only when none matches; every section of the NodeSLO spec is produced. It does not decide the field-by-field JSON overlay semantics.",
+  "trusts go/ssa and the rule tables in internal/rules/c20.go; util.MergeCfg itself is trusted",
+  "DESIGN.md §4 C20")
